@@ -188,8 +188,61 @@ def check_dequeue_result(mod, rep, rid):
                         for v, pb in i.ops:
                             if fn.bmap[tgt].preds == [br.block.id] and cfg.dominates(tgt, pb) and not cfg.dominates(tgt, i.block.id):
                                 decides = True
-        rep.instance(rid, 'dequeue result at %s: tested by %d branch(es), decides the returned index: %s' % (c.where(), len(tested), decides))
-        rep.oblig(rid, decides)
+        # ... and nothing else decides it: between the dequeue call and the definition of the returned index the only conditions are tests of
+        # the dequeue result itself and of the index variable ("first ready object only"); a further condition (the outcome of the last sleep,
+        # say) lets a consumed wake-up go unreported
+        foreign = None
+        if decides:
+            retphis = set(i.id for i in fn.real_insts() if i.op == 'phi' and reaches_ret(i.id, set()))
+            def leaves(ref, seen):
+                if not isinstance(ref, str):
+                    return set()
+                if ref in seen:
+                    return set()
+                seen.add(ref)
+                if ref == c.id or ref in retphis or (ref.startswith('a') and ref[1:].isdigit()):
+                    return set()
+                j = fn.imap.get(ref)
+                if j is None:
+                    return {ref}
+                if j.op in ('icmp', 'zext', 'sext', 'trunc', 'xor', 'and', 'or', 'select'):
+                    out = set()
+                    for o in j.ops:
+                        out |= leaves(o, seen)
+                    return out
+                if j.op == 'phi':
+                    out = set()
+                    for v, pb in j.ops:
+                        out |= leaves(v, seen)
+                    return out
+                return {ref}
+            for i in fn.real_insts():
+                if i.op != 'phi' or i.id not in retphis:
+                    continue
+                # the value carried round the loop (the index variable itself: a header phi that takes this phi back) versus a fresh definition
+                carried = set(v for v, _ in i.ops if isinstance(v, str) and v in fn.imap and fn.imap[v].op == 'phi'
+                              and any(v2 == i.id for v2, _ in fn.imap[v].ops))
+                for v, pb in i.ops:
+                    if not isinstance(v, str) or v in carried or not carried or not cfg.dominates(c.block.id, pb) or pb == c.block.id:
+                        continue
+                    # v is a fresh index defined after this dequeue call, in block pb
+                    gl = list(_guards(fn, fn.bmap[pb].term))
+                    tpb = fn.bmap[pb].term
+                    if tpb.op == 'br' and len(tpb.x['targets']) == 2 and isinstance(tpb.ops[0], str) and tpb.ops[0] in fn.imap:
+                        # the definition sits on an edge of pb's own conditional branch
+                        from ..bounds import _expand
+                        _expand(fn, fn.imap[tpb.ops[0]], tpb.x['targets'][0] == i.block.id, gl, 0)
+                    for cond, sense in gl:
+                        if not cfg.dominates(c.block.id, cond.block.id):
+                            continue
+                        lv = leaves(cond.id, set())
+                        if lv:
+                            foreign = (cond, sorted(lv))
+        rep.instance(rid, 'dequeue result at %s: tested by %d branch(es), decides the returned index: %s%s' % (c.where(), len(tested), decides, '' if foreign is None else ' (also conditioned on %s)' % ', '.join(fn.name_of(x) for x in foreign[1])))
+        rep.oblig(rid, decides and foreign is None)
+        if decides and foreign is not None:
+            rep.violate(Violation(rid, foreign[0].where(), 'nsync_wait_n records the object whose dequeue says "no longer queued" only if a further condition holds (%s): when it does not, a wake-up that a signaller has already spent on this call (the record was unlinked and posted) is reported as a timeout and nobody else is woken in its place'
+                                  % ', '.join(fn.name_of(x) for x in foreign[1]), site='nsync_wait_n/dequeue-result-conditioned'))
         if not decides:
             rep.violate(Violation(rid, c.where(), 'nsync_wait_n %s the result of dequeue: whether this call was woken through the object is decided only there (under the object\'s lock); '
                                   'a wake-up that arrives after the last ready_time poll is consumed (the record is unlinked and posted) but the call reports a timeout' %
